@@ -30,6 +30,42 @@ def run(ctx):
              "fields are the kernel's column names in kernel order, field i reads "
              "column i+1 of the cpu line, divided by CLOCK_TICKS; per-CPU rows come "
              "from the `cpuN` lines after the aggregate line", floor=40)
+    # the number that selects the tuple layout is the number of VALUE columns of
+    # the aggregate cpu line: the label ("cpu") is not counted
+    f0 = repo.func(pm, "set_scputimes_ntuple")
+    vl0 = [st.targets[0].id for st in ast.walk(f0.node) if isinstance(st, ast.Assign)
+           and isinstance(st.value, ast.Call) and dotted(st.value.func) == "len"
+           and isinstance(st.targets[0], ast.Name)]
+    ctx.require(vl0, "set_scputimes_ntuple: length of the cpu line no longer taken")
+    I0 = Interp(repo, An)
+    I0.call_function(f0, [("param", "procfs_path")])
+    lt = I0.last_env.get(vl0[0])
+    okc, whyc = False, f"the count is `{pretty(lt)[:90]}`"
+    if lt and lt[0] == "call" and lt[1] == "len":
+        a = lt[2]
+        off = 0
+        while a and a[0] == "slice":
+            lo, hi, st_ = a[2], a[3], a[4]
+            if lo[0] == "const" and hi == ("const", None) and st_ in (("const", None), ("const", 1)):
+                off += lo[1] or 0
+                a = a[1]
+            else:
+                break
+        if a and a[0] == "split" and a[2] == ("const", None) and a[1][0] == "line" \
+                and "stat" in pretty(a[1][1]) and a[1][2] == 0:
+            if off == 1:
+                okc = True
+            else:
+                whyc = (f"{off} leading token(s) are dropped before counting; the line is "
+                        f"`cpu v1 v2 ...` so exactly the label must be dropped (with the "
+                        f"label counted a 7-column kernel gets a `steal` field read from "
+                        f"nothing, a 9-column one a `guest_nice` field ...)")
+    if okc:
+        ctx.ok("C07.R1", "column-count", sample="len(first line .split()[1:])")
+    else:
+        ctx.fail("C07.R1", "column-count", f0.file, f0.node.lineno, f0.qual,
+                 "the tuple layout is not selected by the number of value columns of the "
+                 "aggregate cpu line: " + whyc)
     for n in (7, 8, 9, 10):
         want = O.CPU_FIELDS[:n]
         I = Interp(repo, An)
